@@ -14,8 +14,9 @@
    Proofs/ValidateProofs.v proves the rational facts close_within_atol / far_not_close).  Binary64 rounding inside numpy is NOT modelled: the
    correspondence keeps its inputs away from the tolerance threshold.
 
-   Behaviours that are listed findings sit behind the switches of [quirks] (one is left: the
-   order2=[names] TypeError of diff._parse_partials, DESIGN item 6).                  *)
+   No finding switch is left: every defect found through this model has been repaired in /repo
+   (the remaining known finding, Sequence.hessian's pair filter, is modelled as it is: the
+   harness hands [seq_build_ok] the pairs that survive the filter).                   *)
 From Coq Require Import List ZArith QArith Qcanon Qabs Bool String Lia.
 From EPG Require Import Scalar QI.
 Import ListNotations.
@@ -45,10 +46,6 @@ Definition same_outcome (a b : verdict) : bool :=
 Definition andv (a b : verdict) : verdict := match a with Accept => b | r => r end.
 Infix ">>" := andv (at level 61, left associativity).
 Definition guard (bad : bool) (e : exn) : verdict := if bad then Reject e else Accept.
-
-Record quirks : Type := mkQuirks {
-  q_order2_list : bool           (* diff._parse_partials builds a set of dicts for order2=[names] -> TypeError *)
-}.
 
 (* ------------------------------------------------------------------ numbers *)
 Definition atol : Q := 1 # 100000000.
@@ -291,13 +288,18 @@ Definition D_shape_ok (tau_shape D_shape : list nat) (k_shape : option (list nat
          && negb (lastd D_shape =? lastd ks)%nat) ValueError >>
   guard (negb (bshapes_ok [tau_shape; butlast (butlast D_shape); butlast ks; [1%nat]])) ValueError.
 
-(* D._apply on a state whose wavenumbers sm.k have kd = min(kdim,3) components, with a tensor
-   whose last dimension is m (None = scalar D) and an optional shift k with kk components:
-   both must equal kd *)
+(* D._apply on a state whose coordinates have s components (1 when there are none), with a tensor
+   whose last dimension is m (None = scalar D) and an optional shift k with kk components.
+   An argument of higher dimension first upgrades the coordinates (sm.setup_coords(need));
+   sm.k keeps the first three components; then both dimensions must equal that of sm.k:
+   a lower-dimensional argument (and anything above 3) is refused. *)
 Definition differs (o : option nat) (kd : nat) : bool :=
   match o with None => false | Some j => negb (j =? kd)%nat end.
-Definition D_apply_ok (m kk : option nat) (kd : nat) : verdict :=
-  guard (differs m kd) ValueError >> guard (differs kk kd) ValueError.
+Definition dim_or_1 (o : option nat) : nat := match o with None => 1%nat | Some j => j end.
+Definition D_kdim (m kk : option nat) (s : nat) : nat :=
+  Nat.min (Nat.max s (Nat.max (dim_or_1 m) (dim_or_1 kk))) 3.
+Definition D_apply_ok (m kk : option nat) (s : nat) : verdict :=
+  guard (differs m (D_kdim m kk s)) ValueError >> guard (differs kk (D_kdim m kk s)) ValueError.
 
 (* ------------------------------------------------------------------ 12. differentiation arguments
    diff.DiffOperator._parse_partials *)
@@ -330,7 +332,7 @@ Definition pair_touches (vars : list string) (p : string * string) : bool :=
   smem (fst p) vars || smem (snd p) vars.
 Definition pair_inside (vars : list string) (p : string * string) : bool :=
   smem (fst p) vars && smem (snd p) vars.
-Definition parse_partials_ok (q : quirks) (params : list string) (params2 : list (string * string))
+Definition parse_partials_ok (params : list string) (params2 : list (string * string))
            (a1 : o1arg) (a2 : o2arg) : verdict :=
   let a1' := if o1_falsy a1 then match a2 with O2True => O1True | O2Str s => O1Str s | _ => a1 end else a1 in
   match norm_o1 params a1' with
@@ -340,20 +342,18 @@ Definition parse_partials_ok (q : quirks) (params : list string) (params2 : list
       if o2_falsy a2 then Accept else
       guard (match o1 with [] => true | _ => false end) ValueError >>
       (let vars := map fst o1 in
-       let o2 : option (verdict + list ((string * string) * list string)) :=
+       let o2 : option (list ((string * string) * list string)) :=
          match a2 with
-         | O2True => Some (inr (map (fun p => (p, [])) params2))
-         | O2Str s => Some (inr [((s, s), [])])
-         | O2StrList l => if q_order2_list q then Some (inl (Reject TypeError))
-                          else Some (inr (flat_map (fun a => map (fun b => ((a, b), [])) l) l))
-         | O2Pairs l => Some (inr (map (fun p => (p, [])) l))
-         | O2Dict l => Some (inr l)
+         | O2True => Some (map (fun p => (p, [])) params2)
+         | O2Str s => Some [((s, s), [])]
+         | O2StrList l => Some (flat_map (fun a => map (fun b => ((a, b), [])) l) l)
+         | O2Pairs l => Some (map (fun p => (p, [])) l)
+         | O2Dict l => Some l
          | _ => None
          end in
        match o2 with
        | None => Reject ValueError
-       | Some (inl v) => v
-       | Some (inr pairs) =>
+       | Some pairs =>
            guard (existsb (fun pc => negb (pair_touches vars (fst pc))) pairs) ValueError >>
            guard (existsb (fun pc => negb (pair_inside vars (fst pc))
                                      && match snd pc with [] => false | _ => true end) pairs) ValueError >>
